@@ -49,9 +49,15 @@ impl epserde::deser::DeserializeInner for Wrong {
 #[derive(epserde::Epserde, Clone, Copy)]
 #[repr(C)]
 #[zero_copy]
-pub enum WrongEnum {
+pub enum WrongEnumT {
     Empty,
     Full(u64, Wrong),
+}
+#[derive(epserde::Epserde, Clone, Copy)]
+#[repr(C)]
+#[zero_copy]
+pub enum WrongEnumN {
+    Empty,
     Named { w: Wrong },
 }
 #[derive(epserde::Epserde, Clone, Copy)]
@@ -99,10 +105,10 @@ must_panic!(zero_check_array, [Wrong(kani::any()), Wrong(kani::any())]);
 // @h zero_check_iter props=C17 tier=quick kind=complete vars="v:SerIter over [Wrong;2]" allow="Cannot serialize type" fns="impls/iter.rs:SerializeHelper<Zero>"
 must_panic!(zero_check_iter, { static W: [Wrong; 2] = [Wrong(1), Wrong(2)]; epserde::impls::iter::SerIter::from(W.iter()) });
 
-// @h zero_check_derived_enum_tuple props=C17,C05 tier=quick kind=complete vars="v:WrongEnum::Full(u64, Wrong) (derived zero-copy enum, tuple variant)" allow="Cannot serialize type" fns="derive:IS_ZERO_COPY (enum, tuple variant),ser/helpers.rs:serialize_zero"
-must_panic!(zero_check_derived_enum_tuple, WrongEnum::Full(kani::any(), Wrong(kani::any())));
-// @h zero_check_derived_enum_named props=C17,C05 tier=quick kind=complete vars="v:WrongEnum::Named{w} (derived zero-copy enum, struct variant)" allow="Cannot serialize type" fns="derive:IS_ZERO_COPY (enum, struct variant)"
-must_panic!(zero_check_derived_enum_named, WrongEnum::Named { w: Wrong(kani::any()) });
+// @h zero_check_derived_enum_tuple props=C17,C05 tier=quick kind=complete vars="v:WrongEnumT::Full(u64, Wrong) (derived zero-copy enum whose only offending field sits in a tuple variant)" allow="Cannot serialize type" fns="derive:IS_ZERO_COPY (enum, tuple variant),ser/helpers.rs:serialize_zero"
+must_panic!(zero_check_derived_enum_tuple, WrongEnumT::Full(kani::any(), Wrong(kani::any())));
+// @h zero_check_derived_enum_named props=C17,C05 tier=quick kind=complete vars="v:WrongEnumN::Named{w} (derived zero-copy enum whose only offending field sits in a struct variant)" allow="Cannot serialize type" fns="derive:IS_ZERO_COPY (enum, struct variant)"
+must_panic!(zero_check_derived_enum_named, WrongEnumN::Named { w: Wrong(kani::any()) });
 // @h zero_check_derived_struct props=C17,C05 tier=quick kind=complete vars="v:WrongStruct{id,w} (derived zero-copy struct)" allow="Cannot serialize type" fns="derive:IS_ZERO_COPY (struct)"
 must_panic!(zero_check_derived_struct, WrongStruct { id: kani::any(), w: Wrong(kani::any()) });
 
